@@ -1509,6 +1509,7 @@ func boundary(suite string, tier string) {
 				}
 			}
 		}
+		envkBoundary(fields) // raw texts per envconfig decode kind (envkind.go)
 		// through config.Manager: per field the first two well-formed, the first zero and the first malformed pool value
 		for _, fr := range fields {
 			seen := map[string]int{}
